@@ -133,6 +133,7 @@ class VGen:
         if c == 11:
             self.ident()
             return self.r.choice([["randomstate", self.r.randint(0, 9), self.r.randint(0, 3)],
+                                  ["randomstate", self.r.randint(0, 9), self.r.randint(0, 3), self.r.choice(BITGENS)],
                                   ["generator", self.r.choice(BITGENS), self.r.randint(0, 9), self.r.randint(0, 3)] + ([self.r.randint(1, 3)] if self.r.random() < 0.3 else [])])
         if c == 12:
             self.ident()
